@@ -4,6 +4,7 @@
 //! the projected state with what the specification computed).
 mod common;
 mod c10;
+mod c14;
 mod c19;
 mod c20;
 
@@ -18,6 +19,8 @@ fn main() {
     match (args[0].as_str(), args[1].as_str()) {
         ("C10", "replay") => c10::replay(rest),
         ("C10", "drive") => c10::drive(rest),
+        ("C14", "replay") => c14::replay(rest),
+        ("C14", "drive") => c14::drive(rest),
         ("C19", "replay") => c19::replay(rest),
         ("C19", "drive") => c19::drive(rest),
         ("C20", "replay") => c20::replay(rest),
